@@ -919,7 +919,58 @@ def mon_C08(case):
         for t in list(getattr(case, "_c08", {})):
             if t not in ln.cache:
                 case._c08.pop(t)
+    out.extend(_c08_same_answer(case))
     return out
+
+
+def _c08_same_answer(case):
+    """"the answers clients get to description … queries are the same whether the topic stayed in memory or was unloaded and loaded
+    back": an attached session asks for the description twice; between the two questions the sessions only leave, attach again
+    (without asking for anything) and ask, the topic idles out or the server restarts - the two answers are the same"""
+    out = []
+    asked = {}          # (session, topic as addressed) -> (line, answer)
+    for i, (o, ln) in enumerate(zip(case.ops, case.lines)):
+        w = o.split(" ")
+        if w[0] in ("sess", "user"):
+            continue
+        if ln.plain is not None or w[0] in ("fail", "crash", "reset"):
+            asked.clear()
+            continue
+        kv = _kv(w[3:]) if len(w) > 3 else {}
+        if w[0] == "get" and len(w) > 3 and "as" not in kv:
+            if w[3] == "desc":
+                pre = prev_state(case, i)
+                ans = [f for sid, f in ln.frames if sid == w[1] and f.startswith("meta ") and " desc[" in f]
+                on_topic = pre is not None and _attached_to(case, pre, w[1], w[2])
+                if len(ans) == 1 and on_topic:
+                    prev = asked.get((w[1], w[2]))
+                    if prev is not None and prev[1] != ans[0]:
+                        out.append((i, f"C08 [same-answer] {w[1]} asked for the description of {w[2]} at line {prev[0]} and again now, nothing "
+                                       f"but leaving, attaching, idling out and restarting in between: `{prev[1]}` then `{ans[0]}`"))
+                    asked[(w[1], w[2])] = (i, ans[0])
+                else:
+                    asked.pop((w[1], w[2]), None)
+            continue
+        if w[0] in ("unload", "restart"):
+            continue
+        if w[0] == "leave" and kv.get("unsub") != "1" and len(w) == 3:
+            continue
+        if w[0] == "sub" and len(w) == 3 and any(sid == w[1] and re.match(r"ctrl (200|304) \S+$", f) for sid, f in ln.frames):
+            continue        # attached again, nothing asked for and nothing changed (no `acs` in the reply)
+        asked.clear()
+    return out
+
+
+def _attached_to(case, st, sid, name):
+    """is the session attached to the topic it addresses as `name` (a group name, `chn:` spelling, or the other user of a p2p topic)"""
+    ts = st.sess.get(sid, set())
+    if name.startswith("U"):
+        me = case.sess.get(sid, {}).get("user")
+        if me is None:
+            return False
+        a, b = sorted([me, name])
+        return f"P:{a}:{b}" in ts
+    return name.replace("chn:", "") in ts
 
 
 # ------------------------------------------------------------------------------------------------ C09
@@ -961,6 +1012,12 @@ def mon_C09(case):
                     if s["r"] < ps["r"] or s["v"] < ps["v"]:
                         out.append((i, f"C09 stored marks of {u} on {t} moved back: read {ps['r']}->{s['r']} recv {ps['v']}->{s['v']}"))
         # relayed notes
+        # "in every place they are reported": the description an attached session gets
+        for sid, f in ln.frames:
+            m_ = re.match(r"meta (\S+) desc\[.*? seq=(\d+) read=(\d+) recv=(\d+) ", f)
+            if m_ and int(m_.group(2)) > 0 and not (int(m_.group(3)) <= int(m_.group(4)) <= int(m_.group(2))):
+                out.append((i, f"C09 [reported-marks] the description of {m_.group(1)} sent to {sid} reports read={m_.group(3)} recv={m_.group(4)} "
+                               f"with {m_.group(2)} messages"))
         infos = [(sid, f) for sid, f in ln.frames if f.startswith("info ")]
         if infos and w[0] != "note":
             out.append((i, f"C09 an info notification was produced by `{w[0]}`"))
